@@ -81,9 +81,23 @@ def to_set(ex, v, node, esort_hint=None):
   ex.unsupported(node, 'set() of %s' % v.kind)
 
 
+@builtin('setattr')
+def _setattr(ex, args, kwargs, node):
+  obj, name, val = args
+  if not isinstance(name, VStr):
+    ex.unsupported(node, 'setattr with a non-literal name')
+  ex.set_attr(obj, name.s, val, node)
+  return NONE
+
+
 @builtin('len')
 def _len(ex, args, kwargs, node):
   v = args[0]
+  if v.kind == 'dyn':
+    from mmverif.engine import dyn
+    ex.safety(z3.Or(dyn.Dyn.is_tup2(v.t), dyn.Dyn.is_tupn(v.t)), 'TypeError',
+              node, 'len() of a non-sequence')
+    return VInt(z3.If(dyn.Dyn.is_tup2(v.t), z3.IntVal(2), dyn.Dyn.arity(v.t)))
   if isinstance(v, (VOpt, VNone)):
     v = ex.need_not_none(v, node, 'argument of len()')
   if isinstance(v, VSet):
@@ -212,6 +226,11 @@ def _abs(ex, args, kwargs, node):
 @builtin('int')
 def _int(ex, args, kwargs, node):
   v = args[0]
+  if v.kind in ('dyn', 'scalar'):
+    from mmverif.engine import dyn
+    if v.kind == 'dyn':
+      ex.safety(dyn.Dyn.is_sc(v.t), 'TypeError', node, 'int() of a tuple')
+    return dyn.py_int(ex, v, node)
   if isinstance(v, (VOpt, VNone)):
     v = ex.need_not_none(v, node, 'argument of int()')
   if isinstance(v, VBool):
@@ -229,6 +248,9 @@ def _float(ex, args, kwargs, node):
   v = args[0]
   if isinstance(v, VStr):
     if v.s in ('inf', '+inf', 'Infinity'):
+      if getattr(ex, '_fmode', 'R') == 'F':
+        from mmverif.engine import dyn
+        return dyn.VFP(z3.fpPlusInfinity(dyn.F64))
       return VReal(uf('float_inf', [], z3.RealSort()))
     ex.unsupported(node, 'float(%r)' % v.s)
   v = ex.need_not_none(v, node, 'argument of float()')
@@ -280,6 +302,8 @@ def _isinstance(ex, args, kwargs, node):
       res = True
     elif n == 'float' and isinstance(v, VReal) and not v.np:
       res = True
+    elif n == 'float' and v.kind == 'fp':
+      res = True
     elif n == 'bool' and isinstance(v, VBool):
       res = True
     elif n == 'tuple' and isinstance(v, VTuple) and v.tname != 'list':
@@ -320,6 +344,12 @@ def _anyall(ex, args, node, is_any):
       ex.unsupported(node, 'any/all over a filtered generator')
     g = gnode.generators[0]
     it = ex.eval(g.iter, genv)
+    if it.kind == 'dyn':
+      from mmverif.engine import dyn
+      ex.safety(dyn.Dyn.is_tup2(it.t), 'TypeError', node,
+                'iteration over a non-pair')
+      it = VTuple([dyn.VScalar(dyn.Dyn.fst(it.t)),
+                   dyn.VScalar(dyn.Dyn.snd(it.t))])
     if isinstance(it, VTuple):
       terms = []
       for item in it.items:
@@ -710,3 +740,12 @@ def _d_keys(ex, recv, args, kwargs, node):
 @vmethod('dict', 'copy')
 def _d_copy(ex, recv, args, kwargs, node):
   return VDict(recv.dom, recv.val, recv.ksort, recv.vshape)
+
+
+for _n in ('gt', 'lt', 'ge', 'le'):
+  def _mk(n):
+    def h(ex, args, kwargs, node):
+      from mmverif.engine import dyn
+      return dyn.operator_fn(n)(ex, args, kwargs, node)
+    return h
+  L['operator.' + _n] = _mk(_n)
